@@ -226,6 +226,7 @@ let do_json (op : string) (a : string list) : string =
   match op with
   | "json.quote" -> fmt_cps (quote (cps_of arg))
   | "json.pstr" -> (match parse_string json_hex_variant (cps_of arg) with JOk (s, _) -> "ok:" ^ fmt_cps s | JErr -> "err" | JPanic -> "panic")
+  | "json.cls" -> (match parse_json json_hex_variant (cps_of arg) with JOk (_, _) -> "ok" | JErr -> "err" | JPanic -> "panic")
   | "json.val" -> (match parse_json json_hex_variant (cps_of arg) with
       | JOk (v, _) -> "ok:" ^ fmt_cps (stringify (canon v)) | JErr -> "err" | JPanic -> "panic")
   | _ -> "?json-op"
@@ -346,8 +347,8 @@ let do_fmt (op : string) (args : string list) : string =
   | "tileid", [z; x; y] -> (match coord_to_tile_id (z_of_string x) (z_of_string y) (nat_of_int' (int_of_string z)) with Some i -> string_of_z i | None -> "err")
   | "idcoord", [i] -> (match tile_id_to_coord (z_of_string i) with Some ((z, x), y) -> Printf.sprintf "%d %s %s" (int_of_nat z) (string_of_z x) (string_of_z y) | None -> "err")
   | "pmdir.ser", [es] -> hex_of_bytes (serialize (entries_of es))
-  | "pmdir.de", [h] -> (match deserialize (bytes_of_hex h) with Ok es -> "ok " ^ fmt_entries es | Err -> "err" | Panic -> "panic" | Overflow -> "overflow")
-  | "pmdir.find", [es; t] -> (match find_tile (entries_of es) (n_of_string t) with Ok (Some e) -> fmt_entry e | Ok None -> "none" | Err -> "err" | Panic -> "panic" | Overflow -> "overflow")
+  | "pmdir.de", [h] -> (match deserialize pm_arith_variant (bytes_of_hex h) with Ok es -> "ok " ^ fmt_entries es | Err -> "err" | Panic -> "panic" | Overflow -> "overflow")
+  | "pmdir.find", [es; t] -> (match find_tile pm_arith_variant (entries_of es) (n_of_string t) with Ok (Some e) -> fmt_entry e | Ok None -> "none" | Err -> "err" | Panic -> "panic" | Overflow -> "overflow")
   | "vtblocks", [lv; tl] ->
       let boxes = List.map (fun t -> match split_on ':' t with [z; b] -> parse_bbox (z ^ "/" ^ String.concat "/" (split_on ',' b)) | _ -> failwith "level") (split_on ';' lv) in
       let pyr z = match List.find_opt (fun b -> b.level = z) boxes with Some b -> b | None -> (match new_empty z with Ok b -> b | _ -> failwith "empty") in
